@@ -15,6 +15,9 @@ import (
 // exits with status 2, never a VIOLATION.
 var WatchdogSeconds = 120
 
+// DumpOnPanic prints all goroutine stacks when a bubble panics (debugging aid).
+var DumpOnPanic bool
+
 // Bubble runs f inside a synctest bubble and returns the panic value, if
 // any, that escaped it (including synctest's end-of-bubble deadlock panic).
 func Bubble(t *testing.T, f func()) (panicked any) {
@@ -28,6 +31,11 @@ func Bubble(t *testing.T, f func()) (panicked any) {
 	defer func() {
 		if p := recover(); p != nil {
 			panicked = p
+			if DumpOnPanic {
+				buf := make([]byte, 1<<20)
+				n := runtime.Stack(buf, true)
+				fmt.Fprintf(os.Stderr, "BUBBLE PANIC: %v\n%s\n", p, buf[:n])
+			}
 		}
 	}()
 	synctest.Test(t, func(t *testing.T) { f() })
